@@ -99,20 +99,20 @@ pub fn replay_case(prop: &str, case: &Value) -> Result<u64, String> {
             }
             match kind {
                 "filter" => {
-                    let e: Expr = serde_json::from_value(case["program"].clone()).map_err(|e| e.to_string())?;
+                    let e: Expr = serde_json::from_value(case["program"].clone()).map_err(|e| format!("re-run: the program tree is not stored in this file ({e})"))?;
                     let text = case["text"].as_str().ok_or("no text")?;
                     check_filter_text(&run, prop, &b, &e, text);
                 }
                 "queries" => {
-                    let e: Expr = serde_json::from_value(case["program"].clone()).map_err(|e| e.to_string())?;
+                    let e: Expr = serde_json::from_value(case["program"].clone()).map_err(|e| format!("re-run: the program tree is not stored in this file ({e})"))?;
                     crate::checks::c17::check_queries(&run, &b, &e);
                 }
                 "candidate" => {
-                    let e: Expr = serde_json::from_value(case["program"].clone()).map_err(|e| e.to_string())?;
+                    let e: Expr = serde_json::from_value(case["program"].clone()).map_err(|e| format!("re-run: the program tree is not stored in this file ({e})"))?;
                     check_candidate(&run, prop, &b, &e);
                 }
                 _ => {
-                    let l: Lhs = serde_json::from_value(case["program"].clone()).map_err(|e| e.to_string())?;
+                    let l: Lhs = serde_json::from_value(case["program"].clone()).map_err(|e| format!("re-run: the program tree is not stored in this file ({e})"))?;
                     check_value(&run, prop, &b, &l);
                 }
             }
